@@ -93,7 +93,7 @@ func runSchedule(r *Run, sc schedScenario, prefix []int) (alts [][]int, taken []
 	if needSession {
 		hasRefresh := false
 		for _, k := range sc.Threads {
-			if k == "refresh" {
+			if k == "refresh" || k == "forged" {
 				hasRefresh = true
 			}
 		}
@@ -120,6 +120,9 @@ func runSchedule(r *Run, sc schedScenario, prefix []int) (alts [][]int, taken []
 			q = hReq{Scheme: "https", Host: "app.example.com", Path: sc.Cfg.LogoutPath, Cookie: x.cookie(x.sid), Gen: x.gen(), KeysOK: true, IDP: idpAnswer{Kind: "transport"}}
 		case "fresh", "refresh", "app":
 			q = x.appReq(x.sid)
+		case "forged": // a check whose refresh is answered with an unexpired ID token signed by a foreign key
+			q = x.appReq(x.sid)
+			q.IDP.ID = mintToken(tokSpec{Mode: "foreign", Exp: x.w.rig.clock.Now().Unix() + 600, Aud: x.w.cfg.ClientID, Sub: "intruder", Extra: x.s.uniq("forged")})
 		case "callback":
 			q = x.callbackReq(x.sid, x.iss, code)
 		case "replay":
@@ -133,6 +136,13 @@ func runSchedule(r *Run, sc schedScenario, prefix []int) (alts [][]int, taken []
 	// scenario can meet (its own scripted answer, but also what another thread stores) is announced before the first spawn
 	for i := range sc.Threads {
 		w.announce(r, []string{reqs[i+1].IDP.ID}, []string{reqs[i+1].Gen[3]})
+		if a := reqs[i+1].IDP; a.Kind == "body" { // what the token endpoint is scripted to return (ghost state of the monitors)
+			for _, t := range []string{a.ID, a.Access, a.Refresh} {
+				if t != "" {
+					s.idpTokens[t] = true
+				}
+			}
+		}
 	}
 	for i := range sc.Threads {
 		w.spawn(r, i+1, reqs[i+1])
